@@ -44,7 +44,7 @@ def plan(tier, seed):
         dict(seeds=all_leaves, operands=ops, small=small[:2], acts=CONSTRUCTORS | {"Kronecker3", "BlockDiag3"},
              lvl=2, dim=8, forms=forms, stride=5),
         dict(seeds=all_leaves, operands=ops, small=small, acts=CONSTRUCTORS | tern, lvl=5, dim=12,
-             forms=forms, stride=3, simulate=1500),
+             forms=forms, stride=3, simulate=50),
     ]
 
 
